@@ -20,7 +20,7 @@ from __future__ import annotations
 import ast
 
 from ..absval import Poly, Rat, ratfun
-from ..normalize import expand_locals, inline_helpers
+from ..normalize import canon, expand_locals, inline_helpers
 from ..core import (AnalysisError, call_name, const_str, dotted, find_calls,
                     is_self_attr, kwarg, last_attr, names_in, short, txt,
                     walk)
@@ -70,8 +70,8 @@ def _sole_assign(func, name):
 
 
 def r191(ctx, repo):
-    gc = inline_helpers(repo, HU, repo.func(HU, "HTTPFile.get_cache_chunk"),
-                        keep=("download_range",))
+    gc = canon(repo, HU, repo.func(HU, "HTTPFile.get_cache_chunk"),
+               keep=("download_range",))
     idx = gc.args.args[1].arg
     res = _sym_resolver({"self._chunk_size": "c", "self.length": "L",
                          idx: "k"})
@@ -132,7 +132,7 @@ def r191(ctx, repo):
     # Range header in both siblings
     for rel, q in ((HU, "HTTPFile.download_range"),
                    (S3, "S3File.download_range")):
-        f = inline_helpers(repo, rel, repo.func(rel, q))
+        f = canon(repo, rel, repo.func(rel, q))
         a0, a1 = f.args.args[1].arg, f.args.args[2].arg
         js = [n for n in walk(f) if isinstance(n, ast.JoinedStr)
               and any(isinstance(v, ast.Constant) and "bytes=" in str(v.value)
@@ -202,8 +202,8 @@ def r191(ctx, repo):
                    f"the non-empty range {bad}", node=r,
                    label="short-cut only for empty ranges")
     # read_range_cached
-    rr = inline_helpers(repo, HU, repo.func(HU, "HTTPFile.read_range_cached"),
-                        keep=("get_cache_chunk", "download_range"))
+    rr = canon(repo, HU, repo.func(HU, "HTTPFile.read_range_cached"),
+               keep=("get_cache_chunk", "download_range"))
     p_start, p_stop = rr.args.args[1].arg, rr.args.args[2].arg
     loops = [n for n in walk(rr) if isinstance(n, ast.For)
              and isinstance(n.iter, ast.Call) and call_name(n.iter) == "range"]
@@ -315,6 +315,8 @@ def r191(ctx, repo):
            f"must take the rest of the chunk)", node=rest,
            label="chunk boundary test")
 
+    accs = set()
+
     def branch_facts_of(body):
         sl = None
         consumed = None
@@ -323,6 +325,20 @@ def r191(ctx, repo):
                 if isinstance(x, ast.AugAssign) and isinstance(
                         x.op, ast.Add) and isinstance(x.value, ast.Subscript):
                     sl = x.value.slice
+                    accs.add(("concat", txt(x.target)))
+                elif isinstance(x, ast.Call) and last_attr(x) == "append" \
+                        and len(x.args) == 1 and isinstance(
+                            x.args[0], ast.Subscript):
+                    # pieces collected in a list, joined at the end
+                    sl = x.args[0].slice
+                    accs.add(("list", txt(x.func.value)))
+                elif isinstance(x, ast.Assign) and isinstance(
+                        x.value, ast.BinOp) and isinstance(
+                        x.value.op, ast.Add) and isinstance(
+                        x.value.right, ast.Subscript) and txt(
+                        x.value.left) == txt(x.targets[0]):
+                    sl = x.value.right.slice
+                    accs.add(("concat", txt(x.targets[0])))
             if isinstance(n, ast.Assign) and isinstance(
                     n.targets[0], ast.Name) and isinstance(
                     n.value, ast.BinOp) and isinstance(n.value.op, ast.Sub):
@@ -348,6 +364,25 @@ def r191(ctx, repo):
            "chunk[offset:stop % chunk_size] and consumes the difference"
            if ok else "final partial chunk slices or counts differently",
            node=rest, label="partial-chunk slice")
+    # what is returned is the concatenation of the pieces
+    rets = [n for n in walk(rr) if isinstance(n, ast.Return)]
+    ok = len(accs) == 1 and bool(rets)
+    for r_ in rets:
+        kind, nm = list(accs)[0] if len(accs) == 1 else (None, None)
+        v = r_.value
+        if kind == "concat":
+            ok = ok and v is not None and txt(v) == nm
+        elif kind == "list":
+            ok = ok and isinstance(v, ast.Call) and last_attr(v) == "join" \
+                and len(v.args) == 1 and txt(v.args[0]) == nm \
+                and isinstance(v.func.value, ast.Constant) \
+                and v.func.value.value == b""
+        else:
+            ok = False
+    ctx.ob("R19.1", bool(ok), "the result is the concatenation of the pieces "
+           "in loop order" if ok else
+           "the pieces taken from the chunks are not what is returned",
+           node=rets[0] if rets else rr, label="result is concatenation")
     cname = cons1.targets[0].id if cons1 is not None else None
     upd = {txt(n.target): (type(n.op).__name__, txt(n.value))
            for n in walk(lp) if isinstance(n, ast.AugAssign)
@@ -397,18 +432,92 @@ def r192(ctx, repo):
     # the eviction may exclude nothing but chunk 0: excluding the requested
     # chunk as well leaves nothing to evict for keep_chunks=1 and the cache
     # then holds more chunks than configured, for good
+    def victim_conditions():
+        """comparisons that restrict which key is evicted, with the name of
+        the candidate-key variable: [(Compare, var)]"""
+        arg = None
+        if isinstance(ev, ast.Call) and ev.args:
+            arg = ev.args[0]
+        elif isinstance(ev, ast.Delete) and isinstance(
+                ev.targets[0], ast.Subscript):
+            arg = ev.targets[0].slice
+        if arg is None:
+            raise AnalysisError("get_cache_chunk: eviction victim not found")
+
+        def over_cache(it):
+            t = txt(it)
+            return t in ("self.cache", "self.cache.keys()",
+                         "list(self.cache)", "list(self.cache.keys())",
+                         "tuple(self.cache)", "tuple(self.cache.keys())")
+        if isinstance(arg, ast.Name):
+            # loop variable of a for-loop over the cache keys
+            n_ = ev
+            conds = []
+            while n_ is not None and not isinstance(n_, ast.FunctionDef):
+                if isinstance(n_, ast.If):
+                    conds += [(c_, arg.id) for c_ in ast.walk(n_.test)
+                              if isinstance(c_, ast.Compare)
+                              and arg.id in names_in(c_)]
+                if isinstance(n_, ast.For) and isinstance(
+                        n_.target, ast.Name) and n_.target.id == arg.id:
+                    if not over_cache(n_.iter):
+                        raise AnalysisError(
+                            "get_cache_chunk: eviction loop does not iterate "
+                            "the cache keys")
+                    return conds
+                n_ = getattr(n_, "parent", None)
+            # a local bound once to next(iter(...)) / <list>[0]
+            d_ = _sole_assign(gc, arg.id)
+            if len(d_) == 1:
+                return from_expr(d_[0].value)
+            raise AnalysisError("get_cache_chunk: eviction victim "
+                                f"`{arg.id}` not understood")
+        return from_expr(arg)
+
+    def from_expr(e):
+        # <candidates>[0] / next(iter(<candidates>)) with candidates a
+        # comprehension over the cache keys (directly or through a local)
+        cand = None
+        if isinstance(e, ast.Subscript) and txt(e.slice) == "0":
+            cand = e.value
+        elif isinstance(e, ast.Call) and call_name(e) == "next" and e.args:
+            cand = e.args[0]
+            if isinstance(cand, ast.Call) and call_name(cand) == "iter" \
+                    and cand.args:
+                cand = cand.args[0]
+        if isinstance(cand, ast.Name):
+            d_ = _sole_assign(gc, cand.id)
+            cand = d_[0].value if len(d_) == 1 else None
+        if isinstance(cand, (ast.ListComp, ast.GeneratorExp)) and len(
+                cand.generators) == 1:
+            g = cand.generators[0]
+            if isinstance(g.target, ast.Name) and txt(cand.elt) == \
+                    g.target.id:
+                t = txt(g.iter)
+                if t in ("self.cache", "self.cache.keys()"):
+                    return [(c_, g.target.id) for i_ in g.ifs
+                            for c_ in ast.walk(i_)
+                            if isinstance(c_, ast.Compare)]
+        raise AnalysisError("get_cache_chunk: eviction victim "
+                            f"`{short(e, 40)}` not understood")
+    conds = victim_conditions()
     excl = []
-    n = ev
-    while n is not None and not isinstance(n, ast.FunctionDef):
-        if isinstance(n, ast.If):
-            for cmpn in ast.walk(n.test):
-                if isinstance(cmpn, ast.Compare) and isinstance(
-                        cmpn.ops[0], (ast.NotEq, ast.NotIn)) \
-                        and "self.cache" not in txt(cmpn) \
-                        and "len(" not in txt(cmpn):
-                    excl.append(txt(cmpn.comparators[0]))
-        n = getattr(n, "parent", None)
-    extra = [e for e in excl if e != "0"]
+    for cmpn, var in conds:
+        if len(cmpn.ops) != 1:
+            raise AnalysisError("get_cache_chunk: chained victim condition")
+        a_, b_ = cmpn.left, cmpn.comparators[0]
+        other = b_ if txt(a_) == var else a_ if txt(b_) == var else None
+        if other is None:
+            continue
+        if isinstance(cmpn.ops[0], (ast.NotEq, ast.NotIn)):
+            excl.append(txt(other))
+        elif isinstance(cmpn.ops[0], ast.Gt) and txt(b_) == "0" \
+                and txt(a_) == var:
+            excl.append("0")        # keys are non-negative chunk indices
+        elif isinstance(cmpn.ops[0], ast.Lt) and txt(a_) == "0" \
+                and txt(b_) == var:
+            excl.append("0")
+    extra = [e for e in excl if e not in ("0", "(0,)", "[0]", "{0}")]
     ctx.ob("R19.2", not extra,
            "only chunk 0 is exempt from eviction (the size bound can always "
            "be restored)" if not extra else
@@ -416,16 +525,7 @@ def r192(ctx, repo):
            f"keep_chunks=1 nothing can be evicted and the cache holds more "
            f"chunks than configured", node=ev, label="eviction exemptions")
     # chunk 0 pinned
-    pinned = False
-    n = ev
-    while n is not None and not isinstance(n, ast.FunctionDef):
-        if isinstance(n, ast.If):
-            for cmpn in ast.walk(n.test):
-                if isinstance(cmpn, ast.Compare) and isinstance(
-                        cmpn.ops[0], ast.NotEq) and txt(
-                        cmpn.comparators[0]) == "0":
-                    pinned = True
-        n = getattr(n, "parent", None)
+    pinned = any(e in ("0", "(0,)", "[0]", "{0}") for e in excl)
     ctx.ob("R19.2", pinned, "chunk 0 (the HDF5 superblock) is never evicted"
            if pinned else "chunk 0 can be evicted", node=ev,
            label="first chunk pinned")
@@ -473,8 +573,8 @@ def r192(ctx, repo):
 
 
 def r193(ctx, repo):
-    rd = inline_helpers(repo, HU, repo.func(HU, "HTTPFile.read"),
-                        keep=("read_range_cached",))
+    rd = canon(repo, HU, repo.func(HU, "HTTPFile.read"),
+               keep=("read_range_cached",))
     allargs = [a.arg for a in rd.args.posonlyargs + rd.args.args]
     if len(allargs) < 2:
         raise AnalysisError("HTTPFile.read: size parameter lost")
